@@ -256,6 +256,7 @@ func rowsFrom(a, b int) []int {
 func pcHessenberg(r *prng.Rand, n int) *problem {
 	a := genGeneral(r, n, n, r.Uniform(1.5, 20))
 	pb := &problem{routine: "hessenbergReduction", opts: "ComputeU", class: "general", in: []*input{matInput("A", a)}, reusable: true}
+	pb.degeneracy = func(ins []*input) float64 { return hessenbergDegeneracy(ins[0].mat()) }
 	pb.exec = func(args []any, st *any) ([]block, error) {
 		if *st == nil {
 			*st = &hessenbergReduction.InSitu{}
@@ -286,6 +287,7 @@ func pcTridiag(r *prng.Rand, n int) *problem {
 	in := matInput("A", a)
 	in.sym = true
 	pb := &problem{routine: "householderTridiagonalization", opts: "ComputeU", class: "symmetric", in: []*input{in}, reusable: true}
+	pb.degeneracy = func(ins []*input) float64 { return hessenbergDegeneracy(ins[0].mat()) }
 	pb.exec = func(args []any, st *any) ([]block, error) {
 		if *st == nil {
 			*st = &householderTridiagonalization.InSitu{}
@@ -312,6 +314,7 @@ func pcBidiag(r *prng.Rand, n int) *problem {
 	m := n + r.Intn(3)
 	a := genGeneral(r, m, n, r.Uniform(1.5, 20))
 	pb := &problem{routine: "householderBidiagonalization", opts: "ComputeU,ComputeV", class: "full-rank", in: []*input{matInput("A", a)}, reusable: true}
+	pb.degeneracy = func(ins []*input) float64 { return bidiagDegeneracy(ins[0].mat()) }
 	pb.exec = func(args []any, st *any) ([]block, error) {
 		if *st == nil {
 			*st = &householderBidiagonalization.InSitu{}
@@ -344,6 +347,7 @@ func pcQR(symmetric bool, eps float64) cGen {
 		in := matInput("A", a)
 		in.sym = symmetric
 		pb := &problem{iterative: true, routine: "qrAlgorithm", opts: "ComputeU", class: "real-simple-spectrum", in: []*input{in}, ticks: 5000}
+		pb.degeneracy = func(ins []*input) float64 { return hessenbergDegeneracy(ins[0].mat()) }
 		if symmetric {
 			pb.opts += ",Symmetric"
 			pb.class = "symmetric-simple-spectrum"
@@ -384,6 +388,7 @@ func pcEigenvectors(symmetric bool) cGen {
 		in := matInput("A", a)
 		in.sym = symmetric
 		pb := &problem{iterative: true, routine: "eigensystem", opts: "ComputeEigenvectors", class: "real-simple-spectrum", in: []*input{in}, ticks: 5000}
+		pb.degeneracy = func(ins []*input) float64 { return hessenbergDegeneracy(ins[0].mat()) }
 		if symmetric {
 			pb.opts += ",Symmetric"
 			pb.class = "symmetric-simple-spectrum"
@@ -447,6 +452,7 @@ func pcSVD(r *prng.Rand, n int) *problem {
 		}
 	}
 	pb := &problem{iterative: true, routine: "svd", opts: "ComputeU,ComputeV", class: class, in: []*input{in}, ticks: 5000}
+	pb.degeneracy = func(ins []*input) float64 { return bidiagDegeneracy(ins[0].mat()) }
 	pb.exec = func(args []any, _ *any) ([]block, error) {
 		s, u, v, err := svd.Run(asMatrix(args[0]), svd.ComputeU{Value: true}, svd.ComputeV{Value: true})
 		if err != nil {
